@@ -53,6 +53,8 @@ class InvalidPathError(GWFError):
 
 
 def _check_path(path):
+    # Paths may be given as path objects (os.PathLike) as well as strings.
+    path = fspath(path)
     if not path:
         raise InvalidPathError("Path is empty")
 
